@@ -1369,58 +1369,123 @@ impl FixtureDatabase {
         Some(context)
     }
 
-    /// Get information about where to insert a new parameter in a function signature
+    /// Get information about where to insert a new parameter in a function signature.
+    ///
+    /// The position is derived from the parsed signature of the function that starts on
+    /// `function_line` (never from a textual search, which can hit `):` inside a default
+    /// value or in a *following* function): the new parameter goes after the last plain
+    /// positional parameter, in front of the first parameter with a default value, or -
+    /// when the signature has `*args` / keyword-only parameters - after those, where it is
+    /// keyword-only (pytest passes fixtures by keyword). Returns `None` when the document
+    /// does not parse or no valid position exists.
     pub fn get_function_param_insertion_info(
         &self,
         file_path: &Path,
         function_line: usize,
     ) -> Option<ParamInsertionInfo> {
         let content = self.get_file_content(file_path)?;
-        let lines: Vec<&str> = content.lines().collect();
+        let parsed = self.get_parsed_ast(file_path, &content)?;
+        let line_index = self.get_line_index(file_path, &content);
+        let rustpython_parser::ast::Mod::Module(module) = parsed.as_ref() else {
+            return None;
+        };
 
-        for i in (function_line.saturating_sub(1))..lines.len().min(function_line + 10) {
-            let line = lines[i];
-            if let Some(paren_pos) = line.find("):") {
-                let has_params = if let Some(open_pos) = line.find('(') {
-                    if open_pos < paren_pos {
-                        let params_section = &line[open_pos + 1..paren_pos];
-                        !params_section.trim().is_empty()
-                    } else {
-                        true
-                    }
-                } else {
-                    let before_close = &line[..paren_pos];
-                    if !before_close.trim().is_empty() {
-                        true
-                    } else {
-                        let mut found_params = false;
-                        for prev_line in lines.iter().take(i).skip(function_line.saturating_sub(1))
-                        {
-                            if prev_line.contains('(') {
-                                if let Some(open_pos) = prev_line.find('(') {
-                                    let after_open = &prev_line[open_pos + 1..];
-                                    if !after_open.trim().is_empty() {
-                                        found_params = true;
-                                        break;
-                                    }
-                                }
-                            } else if !prev_line.trim().is_empty() {
-                                found_params = true;
-                                break;
-                            }
-                        }
-                        found_params
-                    }
-                };
+        let (func_start, args) =
+            self.find_function_signature_at_line(&module.body, function_line, &line_index)?;
 
-                return Some(ParamInsertionInfo {
-                    line: i + 1,
-                    char_pos: paren_pos,
-                    needs_comma: has_params,
-                });
+        let end_of = |arg: &rustpython_parser::ast::ArgWithDefault| -> usize {
+            arg.default
+                .as_ref()
+                .map(|d| d.range().end().to_usize())
+                .unwrap_or_else(|| arg.def.range.end().to_usize())
+        };
+        let first_default = args
+            .posonlyargs
+            .iter()
+            .chain(args.args.iter())
+            .find(|a| a.default.is_some());
+
+        // (byte offset, comma before, comma after)
+        let (offset, needs_comma, comma_after) = if let Some(last) = args.kwonlyargs.last() {
+            (end_of(last), true, false)
+        } else if let Some(vararg) = &args.vararg {
+            (vararg.range.end().to_usize(), true, false)
+        } else if let Some(first_default) = first_default {
+            if args
+                .posonlyargs
+                .iter()
+                .any(|a| std::ptr::eq(a, first_default))
+            {
+                // would become positional-only: pytest cannot pass a fixture there
+                return None;
+            }
+            (first_default.def.range.start().to_usize(), false, true)
+        } else if let Some(kwarg) = &args.kwarg {
+            let before = content.get(..kwarg.range.start().to_usize())?;
+            (before.rfind("**")?, false, true)
+        } else if let Some(last) = args.args.last() {
+            (end_of(last), true, false)
+        } else if let Some(last) = args.posonlyargs.last() {
+            // after the `/` marker, so that the new parameter is not positional-only
+            let after = end_of(last);
+            let slash = content.get(after..)?.find('/')? + after + 1;
+            (slash, true, false)
+        } else {
+            let open = content.get(func_start..)?.find('(')? + func_start;
+            (open + 1, false, false)
+        };
+
+        let line = self.get_line_from_offset(offset, &line_index);
+        let char_pos = self.get_char_position_from_offset(offset, &line_index);
+        Some(ParamInsertionInfo {
+            line,
+            char_pos,
+            needs_comma,
+            comma_after,
+        })
+    }
+
+    /// Find the (start offset, arguments) of the function definition that starts on `line`.
+    fn find_function_signature_at_line<'a>(
+        &self,
+        stmts: &'a [Stmt],
+        line: usize,
+        line_index: &[usize],
+    ) -> Option<(usize, &'a rustpython_parser::ast::Arguments)> {
+        for stmt in stmts {
+            match stmt {
+                Stmt::FunctionDef(f) => {
+                    let start = f.range.start().to_usize();
+                    if self.get_line_from_offset(start, line_index) == line {
+                        return Some((start, &f.args));
+                    }
+                    if let Some(found) =
+                        self.find_function_signature_at_line(&f.body, line, line_index)
+                    {
+                        return Some(found);
+                    }
+                }
+                Stmt::AsyncFunctionDef(f) => {
+                    let start = f.range.start().to_usize();
+                    if self.get_line_from_offset(start, line_index) == line {
+                        return Some((start, &f.args));
+                    }
+                    if let Some(found) =
+                        self.find_function_signature_at_line(&f.body, line, line_index)
+                    {
+                        return Some(found);
+                    }
+                }
+                Stmt::ClassDef(c) => {
+                    if let Some(found) =
+                        self.find_function_signature_at_line(&c.body, line, line_index)
+                    {
+                        return Some(found);
+                    }
+                }
+                _ => {}
             }
         }
-
         None
     }
 
